@@ -3,7 +3,7 @@
 From Boltons Require Import Lib.Prelude Lib.C03_Syntax Lib.C03_Conc Model.C03_Model
      Proofs.C03_Serial Proofs.C03_Covered Proofs.C03_Main Proofs.C03_Link1 Proofs.C03_Link2 Proofs.C03_Link4 Proofs.C03_Link3
      Spec.C03_Spec Proofs.C03_SpecLink Proofs.C03_SpecLink2 Proofs.C03_SpecLink3
-     Proofs.C03_Complete Proofs.C03_FinalOk Proofs.C03_Probe Proofs.C03_Transfer Proofs.C03_Final
+     Proofs.C03_Complete Proofs.C03_CompleteCalls Proofs.C03_FinalOk Proofs.C03_Probe Proofs.C03_Transfer Proofs.C03_Final
      Proofs.C03_Realise Proofs.C03_Explore Check.C03_Check Gen.C03_Gen.
 
 (* (T) obligation over regenerated data: in the CURRENT source, self._lock is a
@@ -283,17 +283,25 @@ Theorem C03_model_outcome_satisfies_spec :
 Proof. exact model_outcome_holds. Qed.
 Print Assumptions C03_model_outcome_satisfies_spec.
 
+(* the model's count of on_miss calls, for every lock order, is the count of an accepted interleaving *)
+Theorem C03_model_calls_satisfy_spec :
+  forall tb (c : c03_case) order o,
+    wf_case c -> model_outcome tb c order = Some o ->
+    calls_ok (case_rcfg c) (ca_init c) (ca_progs c) o (model_calls tb c order) = true.
+Proof. exact model_outcome_calls_ok. Qed.
+Print Assumptions C03_model_calls_satisfy_spec.
+
 Theorem C03_agree_implies_holds :
-  forall (c : c03_case) (r : c03_run), wf_case c -> run_agree c r = true -> run_holds_core c r = true.
-Proof. exact agree_implies_holds. Qed.
+  forall (c : c03_case) (r : c03_run), wf_case c -> run_agree c r = true -> run_holds c r = true.
+Proof. exact agree_implies_holds_full. Qed.
 Print Assumptions C03_agree_implies_holds.
 
 (* exactly what the check computes per case: the agree bit (which includes the well-formedness
-   test of the case) implies the part of the holds bit that is the property as stated
-   (run_holds_core = Spec.spec_holds); the holds bit additionally checks the number of on_miss
-   calls of the run (Spec.calls_ok), which the model does not predict *)
+   test of the case and the model's count of on_miss calls) implies the holds bit -- both its
+   conjuncts: the property as stated (run_holds_core = Spec.spec_holds) and the number of on_miss
+   calls of the run being that of some accepted interleaving (Spec.calls_ok) *)
 Theorem C03_verdict_agree_implies_holds :
-  forall c : c03_case, fst (fst (c03_verdict c)) = true -> forallb (run_holds_core c) (ca_runs c) = true.
+  forall c : c03_case, fst (fst (c03_verdict c)) = true -> snd (fst (c03_verdict c)) = true.
 Proof. exact verdict_agree_implies_holds. Qed.
 Print Assumptions C03_verdict_agree_implies_holds.
 
